@@ -25,6 +25,7 @@ inductive Macro where
   | getitem (p c i : Nat)                   -- c[k] returns (a copy of) the nested proxy to p
   | pass (p c i : Nat)                       -- a method of `c` gets the proxy as an argument and does not keep it
                                              --   (count / index / a call that raises): dropped with the request
+  | fork (p q i : Nat)                       -- `q` forked from `p` inherits `p`'s proxy of `i` (one macro per inherited proxy)
   | call (p i : Nat)
   | exit (q : Nat)
 
@@ -39,6 +40,7 @@ def expand (s : State) : Macro → List Act
   | .delitem p c i => [.call p c, .unstore c i, .drop .temp i]
   | .getitem p c i => [.call p c, .pickle (.item c) i, .unpickle (.client p) i, .drop .rebuild i]
   | .pass p c i => [.call p c, .pickle (.client p) i, .unpickle .temp i, .drop .rebuild i]   -- `quiesce` drops the temp
+  | .fork p q i => [.fork p q i]
   | .call p i => [.call p i]
   | .exit q =>
     .exitBegin q :: ((s.refs.filter (fun r => r.1 == .client q)).map (fun r => .drop (.client q) r.2)) ++ [.exitEnd q]
@@ -57,6 +59,7 @@ def parseMacro : List String → Option Macro
   | ["delitem", p, c, i] => do some (.delitem (← p.toNat?) (← c.toNat?) (← i.toNat?))
   | ["getitem", p, c, i] => do some (.getitem (← p.toNat?) (← c.toNat?) (← i.toNat?))
   | ["pass", p, c, i] => do some (.pass (← p.toNat?) (← c.toNat?) (← i.toNat?))
+  | ["fork", p, q, i] => do some (.fork (← p.toNat?) (← q.toNat?) (← i.toNat?))
   | ["call", p, i] => do some (.call (← p.toNat?) (← i.toNat?))
   | ["exit", q] => do some (.exit (← q.toNat?))
   | _ => none
@@ -76,7 +79,7 @@ def table (st : St) : String :=
   s!"rc={rc} shm={shm}"
 
 def maxIdent : Macro → Nat
-  | .create _ _ i | .manage _ i | .pickle _ i | .unpickle _ i | .delete _ i | .call _ i => i + 1
+  | .create _ _ i | .manage _ i | .pickle _ i | .unpickle _ i | .delete _ i | .call _ i | .fork _ _ i => i + 1
   | .store _ c i | .pop _ c i | .delitem _ c i | .getitem _ c i | .pass _ c i => max c i + 1
   | .exit _ => 0
 
